@@ -183,6 +183,25 @@ Check C16_decimal_literal_erasure : forall sp c r,
   literal_value sp (String c r) = sp (remove_char "_" (String c r)).
 Print Assumptions C16_decimal_literal_erasure.
 
+Theorem C16_decimal_literal_value : forall sp c r ip fp ex,
+  is_digit c = true \/ c = "."%char ->
+  (c = "0"%char -> match r with String c2 _ => c2 <> "b"%char /\ c2 <> "x"%char | EmptyString => True end) ->
+  remove_char "_" (String c r) = dec_text ip fp ex ->
+  all_digits ip = true -> all_digits fp = true -> (ip <> "" \/ fp <> "") -> exp_ok ex ->
+  sp (dec_text ip fp ex) = ref_str_parse (dec_text ip fp ex) ->
+  literal_value sp (String c r)
+  = Some (rn_decimal false (digits_val (ip ++ fp) 0) (exp_val ex - slen fp)).
+Proof. exact decimal_literal_value. Qed.
+Check C16_decimal_literal_value : forall sp c r ip fp ex,
+  is_digit c = true \/ c = "."%char ->
+  (c = "0"%char -> match r with String c2 _ => c2 <> "b"%char /\ c2 <> "x"%char | EmptyString => True end) ->
+  remove_char "_" (String c r) = dec_text ip fp ex ->
+  all_digits ip = true -> all_digits fp = true -> (ip <> "" \/ fp <> "") -> exp_ok ex ->
+  sp (dec_text ip fp ex) = ref_str_parse (dec_text ip fp ex) ->
+  literal_value sp (String c r)
+  = Some (rn_decimal false (digits_val (ip ++ fp) 0) (exp_val ex - slen fp)).
+Print Assumptions C16_decimal_literal_value.
+
 (* the reference is sign-symmetric (so reading "-t" as negation of "t" loses nothing) *)
 Theorem C16_rn_decimal_sign : forall s m e,
   0 <= m -> rn_decimal s m e = with_sign s (rn_decimal false m e).
@@ -256,6 +275,13 @@ Example source_path_computes :
   = map (fun b => Ok (nb b))
       [0xbfb999999999999a; 0xc014000000000000; 0x8000000000000000; 0x430c6bf526340000; 0x7fefffffffffffff; 1].
 Proof. vm_compute. reflexivity. Qed.
+Example decimal_literal_value_example :   (* 1_0.2_5e-3 is not in the grammar; 1_0.25E-3 is *)
+  literal_value ref_str_parse "1_0.25E-3" = Some (rn_decimal false 1025 (-3 - 2)).
+Proof.
+  apply (decimal_literal_value ref_str_parse "1" "_0.25E-3" "10" "25" (Some (true, EMinus, "3")));
+    try reflexivity; try (left; reflexivity); try (split; [reflexivity | discriminate]); try discriminate.
+  left; discriminate.
+Qed.
 Example literal_examples :
   map (show_presult ref_str_parse) ["0xFF"; "0b1010"; "1_000_000"; "3.14e-2"; ".5"; "-.5e1"; "1e23"; "0x7fff_ffff_ffff_ffff"]
   = ["406fe00000000000"; "4024000000000000"; "412e848000000000"; "3fa013a92a305532";
